@@ -384,7 +384,7 @@ def correspondence(ctx):
         rep.traces += 1
         why = None
         if "exc" in o:
-            why = "implementation raised %s; model returns" % o["exc"]
+            why = "implementation raised %s; the model returns a value" % o["exc"]
         elif not ok:
             why = "params / nll / deriv differ from the model"
         else:
